@@ -1918,9 +1918,11 @@ func (f *fragment) mergeBlock(id int, data []pairSet) (sets, clears []pairSet, e
 	sets = make([]pairSet, len(data)+1)
 	clears = make([]pairSet, len(data)+1)
 
-	// Limit upper row/column pair.
-	maxRowID := uint64(id+1) * HashBlockSize
-	maxColumnID := uint64(ShardWidth)
+	// Limit upper row/column pair. The limit iterator includes the limit pair
+	// itself, so this is the last pair of the block: the first row of the next
+	// block is not part of the data the other replicas report for this block.
+	maxRowID := uint64(id+1)*HashBlockSize - 1
+	maxColumnID := uint64(ShardWidth) - 1
 
 	// Create buffered iterator for local block.
 	itrs := make([]*bufIterator, 1, len(data)+1)
